@@ -188,6 +188,38 @@ type Case struct {
 	// check is referenced again by every later block of the configuration (the message passes it
 	// several times; it is asked once).
 	Wraps []string
+
+	// Hops: the routing blocks between the pipeline that evaluates DMARC and the storage target
+	// (`reply` ops only; nil: the target is attached directly).  The stock configuration delivers
+	// through `deliver_to &local_routing`: the target of the endpoint's pipeline is another
+	// msgpipeline sharing the message's metadata; its own applyResults runs after the outer one.
+	// One token per nested pipeline, outermost first: p no checks of its own, c a check that has
+	// nothing to say, m the same and a recipient-block check too, f a check of the routing block
+	// flags the message itself (own action quarantine).
+	Hops []string
+}
+
+func hopOK(h string) bool { return h == "p" || h == "c" || h == "m" || h == "f" }
+
+// AddHops draws the routing blocks the message passes after the DMARC-evaluating pipeline.
+func AddHops(r *vh.Rng, c *Case) {
+	n := 1
+	if r.Chance(25) {
+		n = 2 + r.Intn(2)
+	}
+	c.Hops = make([]string, n)
+	for i := range c.Hops {
+		switch x := r.Intn(100); {
+		case x < 45:
+			c.Hops[i] = "p"
+		case x < 70:
+			c.Hops[i] = "c"
+		case x < 90:
+			c.Hops[i] = "m"
+		default:
+			c.Hops[i] = "f"
+		}
+	}
 }
 
 // WrapOf is the wrap token of the check of block k ("b" when the case has none).
@@ -215,6 +247,11 @@ func (c *Case) EarlierQ() bool {
 			continue
 		}
 		if WrapHas(w, 'q') {
+			return true
+		}
+	}
+	for _, h := range c.Hops {
+		if h == "f" {
 			return true
 		}
 	}
@@ -519,6 +556,9 @@ func (c *Case) Op(kind string, fieldVals []string, out *vh.Out) string {
 	if kind == "reply" && c.Wraps != nil {
 		g = append(g, "W "+strings.Join(c.Wraps, " "))
 	}
+	if kind == "reply" && c.Hops != nil {
+		g = append(g, "N "+strings.Join(c.Hops, " "))
+	}
 	for _, r := range c.Res {
 		switch r.Kind {
 		case 'd':
@@ -601,6 +641,13 @@ func ParseOp(op string) (kind string, c *Case, err error) {
 					panic("wrap token " + w)
 				}
 				c.Wraps = append(c.Wraps, w)
+			}
+		case "N":
+			for _, h := range f[1:] {
+				if !hopOK(h) {
+					panic("hop token " + h)
+				}
+				c.Hops = append(c.Hops, h)
 			}
 		case "A":
 			if c.Arrive == nil {
@@ -1818,6 +1865,54 @@ func WrapCorpus() []*Case {
 				c.Blocks, c.Wraps = lay.blocks, lay.wraps
 				c.NonAtomic = lay.blocks != nil && i%2 == 1
 				out = append(out, c)
+			}
+		}
+	}
+	return out
+}
+
+// HopCorpus: the message reaches the storage through routing blocks (nested pipelines sharing its
+// metadata), the shape of the stock configuration (reply ops only).
+func HopCorpus() []*Case {
+	dk := func(v, d string) Res { return Res{Kind: 'd', Val: v, Dom: d, Ident: "@" + d} }
+	spf := func(v, from, helo string) Res { return Res{Kind: 's', Val: v, From: from, Helo: helo} }
+	one := func(d string) string { return "From: Some Body <user@" + d + ">\r\nSubject: x\r\n\r\n" }
+	var out []*Case
+	for _, rec := range []string{"p=reject", "p=quarantine", "p=none", "p=none; sp=quarantine", "p=quarantine; sp=none", "p=quarantine; pct=100"} {
+		for i, lay := range []struct {
+			hops   []string
+			blocks []int
+			wraps  []string
+		}{
+			{[]string{"p"}, nil, nil},
+			{[]string{"c"}, nil, []string{"bi"}},
+			{[]string{"p", "p"}, []int{1, 1, -1}, nil},
+			{[]string{"m"}, []int{-1, 1, 1}, []string{"-", "ci", "ri"}},
+			{[]string{"c", "m", "p"}, nil, []string{"sih"}},
+			{[]string{"f"}, nil, nil},
+			{[]string{"p", "f"}, nil, []string{"bq"}},
+			{[]string{"m", "c"}, []int{2, -1, -1}, nil},
+		} {
+			for _, sub := range []bool{false, true} {
+				author, zone := "example.com", "example.com"
+				if sub {
+					author = "mail.example.com"
+				}
+				for _, aligned := range []bool{false, true} {
+					zones := map[string]Zone{zone: txt("v=DMARC1; " + rec)}
+					if sub {
+						zones[author] = Zone{Kind: "nx"}
+					}
+					c := mk(one(author), "1", author, zones,
+						dk("pass", "example.net"), spf("fail", "example.net", "mx.example.net"))
+					if aligned {
+						c.Res[0] = dk("pass", "example.com")
+					}
+					c.Hops, c.Blocks, c.Wraps = lay.hops, lay.blocks, lay.wraps
+					c.ArriveDefault = i % 5
+					c.NonAtomic = lay.blocks != nil && i%2 == 1
+					out = append(out, c)
+				}
 			}
 		}
 	}
